@@ -39,11 +39,8 @@ def fmtIntsPre (pre : String) (xs : List Int) : String :=
 def fmtNatsPre (pre : String) (xs : List Nat) : String :=
   if xs.isEmpty then pre else pre ++ " " ++ fmtNats xs
 
-/-- non-decreasing and NaN-free (the only inputs on which `ref_sort_search_dbl` is exercised) -/
-def sortedFloats : List Float → Bool
-  | [] => true
-  | [x] => !x.isNaN
-  | x :: y :: r => !x.isNaN && decide (x ≤ y) && sortedFloats (y :: r)
+/-- NaN-free lists are the inputs on which `ref_sort_search_dbl` is exercised (it may hang otherwise) -/
+def nanFree (xs : List Float) : Bool := xs.all fun x => !x.isNaN
 
 def interleave : List Int → List Int → List Int
   | k :: ks, v :: vs => k :: v :: interleave ks vs
@@ -73,7 +70,7 @@ def stepSort (op : String) (args : List String) : Option String :=
       | _ => none
   | "search_dbl" => match parseFs? args with
       | some (t :: xs) =>
-        if !sortedFloats xs then some "unsorted"
+        if !nanFree xs then some "nan-list"
         else match searchDbl leFloat ltFloat xs t with
           | some (st, p) => some s!"{st} {p}"
           | none => some "hang"
